@@ -129,11 +129,12 @@ func (r *Remote) Start(e *actor.Engine) error {
 
 // Stop will stop the remote from listening.
 func (r *Remote) Stop() *sync.WaitGroup {
-	if r.state.Load() != stateRunning {
+	// one transition for all concurrent callers: only the one that makes it signals stopCh
+	// (nobody receives a second signal).
+	if !r.state.CompareAndSwap(stateRunning, stateStopped) {
 		slog.Warn("remote already stopped but stop was called", "state", r.state.Load())
 		return &sync.WaitGroup{} // return empty waitgroup so the caller can still wait without panicking.
 	}
-	r.state.Store(stateStopped)
 	r.stopCh <- struct{}{}
 	return r.stopWg
 }
